@@ -155,9 +155,16 @@ def discharge(obligations, timeout_s=20, jobs=None, seed=0, keep_smt2=3, cvc5_al
             i, r = _solve(t)
             results[i] = r
     else:
+        # overall budget of the solving phase (a changed tree can turn hundreds of obligations into hard queries that each
+        # use their full allowance): what is not answered by then is `unknown: budget`, the check still ends
+        budget_s = float(os.environ.get("PYVC_SOLVE_BUDGET", timeout_s * 45))
+        t_start = time.time()
         with ctx.Pool(jobs) as pool:
             asyncs = [(t[0], pool.apply_async(_solve, (t,))) for t in tasks]
             for i, a in asyncs:
+                if time.time() - t_start > budget_s and not a.ready():
+                    results[i] = {"result": "unknown", "reason": "solve budget of %.0f s exhausted" % budget_s, "time_s": 0.0, "backend": "z3"}
+                    continue
                 try:
                     _, r = a.get(timeout=timeout_s * 3 + 30)
                 except mp.TimeoutError:
